@@ -6,6 +6,7 @@ mod provider;
 mod runs;
 mod srv;
 mod sse;
+mod surface;
 mod sub;
 mod store;
 mod util;
@@ -41,6 +42,7 @@ fn main() {
         "patch" => fsops::engine_patch(&rt, cases, &mut out),
         "pathguard" => fsops::engine_pathguard(&rt, cases, &mut out),
         "ckpt" => fsops::engine_ckpt(&rt, cases, &mut out),
+        "surface" => surface::engine_surface(cases, &mut out),
         other => {
             eprintln!("unknown engine {other}");
             std::process::exit(2);
